@@ -27,6 +27,7 @@ const rule = "Each case is a scenario of op lines run in its own child process o
 	"the channel holds, late and parked consumers, lifecycle routines and bursts with a full channel; " +
 	"API handler functions of every endpoint type additionally with the option core/devMode on (and toggled within a scenario); " +
 	"a stop routine that panics / fails / is healthy / is absent x every kind of work that ignores the cancellation and outlives a short stop timeout (`stoptimeout short`: the timeout branch of stopAllTasks) x the module stopped by Shutdown / by a management pass; " +
+	"workers (service worker, StartWorker, RunWorker) launched before the module's start — from inside its prep routine or right after registration (`prespawn`) — that end, panicking, once the module is online; " +
 	"plus service-worker outcome sequences, management passes, items ending at module stop, the same module through several lives (stopped and restarted with work before, during and after), random mixed scenarios, " +
 	"free-running bursts and a malformed-op stream. Non-trivial = the case contains at least one executed panic; " +
 	"distinct = distinct op-line sequence."
